@@ -34,6 +34,16 @@ DropAt(x, path) ==
             THEN LET i == FieldIdx(x, st[2]) IN [x EXCEPT !.v[i].val = DropAt(@, Tail(path))]
             ELSE [x EXCEPT !.v[st[2]] = DropAt(@, Tail(path))]
 
+\* add a field to the struct at `path` (kept in ascending id order)
+RECURSIVE AddAt(_, _, _)
+AddAt(x, path, fld) ==
+    IF path = <<>>
+    THEN [x EXCEPT !.v = SelectSeq(@, LAMBDA f : f.id < fld.id) \o <<fld>> \o SelectSeq(@, LAMBDA f : f.id > fld.id)]
+    ELSE LET st == path[1]
+         IN IF st[1] = "f"
+            THEN LET i == FieldIdx(x, st[2]) IN [x EXCEPT !.v[i].val = AddAt(@, Tail(path), fld)]
+            ELSE [x EXCEPT !.v[st[2]] = AddAt(@, Tail(path), fld)]
+
 \* all paths (depth-first order) to nodes whose type is in `types`; at most `cap` elements of a list are entered
 RECURSIVE PathsOf(_, _, _, _)
 PathsOf(x, prefix, types, cap) ==
@@ -59,5 +69,7 @@ IntValues(w, fsize) ==
 BinValues(b) == SelectSeq(<< <<>>, <<0>>, [i \in 1..300 |-> 65], b \o b >>, LAMBDA v : v # b)
 
 \* a mutation is [kind |-> "set" | "drop", path, val]
-Apply(tree, m) == IF m.kind = "set" THEN SetAt(tree, m.path, m.val) ELSE DropAt(tree, m.path)
+Apply(tree, m) == IF m.kind = "set" THEN SetAt(tree, m.path, m.val)
+                  ELSE IF m.kind = "add" THEN AddAt(tree, m.path, [id |-> m.id, val |-> m.val])
+                  ELSE DropAt(tree, m.path)
 =============================================================================
